@@ -22,28 +22,30 @@ QUICK = [
 ]
 
 THOROUGH = [
-    ("merge_all", dict(Ops={"merge_all"}, Tabs={"plain", "short", "error", "never"}, Flavours={"cold", "sync", "hot"}, RG=False)),
-    ("merge(max_concurrent) cold", dict(Ops={"merge_mc"}, MCs={1, 2, 3}, Tabs={"plain", "short", "error", "never"}, Flavours={"cold"}, RG=False)),
-    ("merge(max_concurrent) sync", dict(Ops={"merge_mc"}, MCs={1, 2, 3}, Tabs={"plain", "short", "error", "never"}, Flavours={"sync"}, RG=False)),
+    ("merge_all", dict(Ops={"merge_all"}, Tabs={"plain", "short", "error", "never"}, Flavours={"cold", "sync"}, RG=False)),
+    ("merge_all hot", dict(Ops={"merge_all"}, Tabs={"pair", "error"}, Flavours={"hot"})),
+    ("merge(max_concurrent) cold", dict(Ops={"merge_mc"}, MCs={1, 2, 3}, Tabs={"plain", "short", "error", "never"}, Flavours={"cold"})),
+    ("merge(max_concurrent) sync", dict(Ops={"merge_mc"}, MCs={1, 2, 3}, Tabs={"plain", "short", "error", "never"}, Flavours={"sync"})),
+    ("merge(max_concurrent) queue order", dict(Ops={"merge_mc"}, MCs={1, 2}, Tabs={"plain", "short"}, Flavours={"cold"}, RG=False)),
     ("merge(max_concurrent) hot", dict(Ops={"merge_mc"}, MCs={1, 2}, Tabs={"pair", "short"}, Flavours={"hot"})),
     ("long table, 4 inners", dict(Ops={"merge_all", "merge_mc"}, MCs={1, 2, 3}, Tabs={"long"}, Flavours={"cold", "sync"}, MaxOuter=4,
                                  OTimes={1, 2, 4}, OTermTimes={2, 4, 9})),
-    ("mapped + every mapper table", dict(Ops={"flat_map", "flat_map_indexed", "concat_map"}, Tabs={"plain", "error"},
+    ("mapped + every mapper table", dict(Ops={"flat_map", "flat_map_indexed", "concat_map"}, Tabs={"error"},
                                          Flavours={"cold", "sync"}, Faults=True, FAll=True, MaxOuter=2)),
-    ("mapped + faults", dict(Ops={"flat_map", "flat_map_indexed", "concat_map"}, Tabs={"plain", "short", "never"}, Flavours={"cold", "sync"}, Faults=True)),
+    ("mapped + faults", dict(Ops={"flat_map", "flat_map_indexed", "concat_map"}, Tabs={"plain", "never"}, Flavours={"cold", "sync"}, Faults=True)),
     ("merge(sources...)", dict(Ops={"merge_srcs"}, Tabs={"plain", "short", "error", "never", "long"}, Flavours={"cold", "sync", "hot"},
-                              RG=False, MaxOuter=4)),
-    ("dispose instants", dict(Ops={"merge_all", "merge_mc", "concat_map"}, MCs={1, 2}, Tabs={"plain", "error", "never"}, Flavours={"cold", "sync"},
+                              RG=False, MaxOuter=3)),
+    ("dispose instants", dict(Ops={"merge_all", "merge_mc", "concat_map"}, MCs={1, 2}, Tabs={"plain", "error"}, Flavours={"cold", "sync"},
                               DspTicks={0, 1, 2, 3, 4, 5}, OTermTimes={2, 5})),
     ("outer events at the subscription instant", dict(Ops={"merge_all", "merge_mc", "flat_map"}, MCs={1, 2}, Tabs={"short", "error"},
                                                       Flavours={"cold", "sync"}, OTimes={0, 1, 2}, OTermTimes={0, 1, 3})),
     ("cut by take(k) in the middle of a notification",
-     dict(Ops={"merge_all", "merge_mc", "concat_map", "flat_map"}, MCs={1, 2, 3}, Tabs={"short", "plain", "error"}, Flavours={"sync", "cold"},
-          RG=False, OTimes={0, 1, 2}, OTermTimes={2, 5}, OTerms={"C", "U"}, Takes={1, 2, 3})),
+     dict(Ops={"merge_all", "merge_mc", "concat_map", "flat_map"}, MCs={1, 2}, Tabs={"short", "error"}, Flavours={"sync", "cold"},
+          RG=False, OTimes={0, 1, 2}, OTermTimes={2, 5}, OTerms={"C", "U"}, Takes={1, 2})),
     ("mapper returning a list / constant mapper", dict(Ops={"flat_map", "flat_map_indexed", "concat_map"}, Tabs={"zero"}, Flavours={"cold"},
-                                                       RG=False, Faults=True)),
+                                                       Faults=True)),
     ("generated tables", dict(Ops={"merge_all", "merge_mc"}, MCs={1, 2}, Tabs={"gen"}, Flavours={"cold", "sync"}, MaxOuter=3,
-                              OTimes={1, 2}, OTermTimes={1, 2, 4}, GenN=2, GenLen=2, GenTimes={0, 1, 2})),
+                              OTimes={1, 2}, OTermTimes={1, 2, 4}, GenN=2, GenLen=2, GenTimes={0, 1})),
 ]
 SIM = [
     ("simulate: generated tables, 3 inners", dict(Ops={"merge_all", "merge_mc", "flat_map", "concat_map", "flat_map_indexed"}, MCs={1, 2, 3},
@@ -64,7 +66,7 @@ def run(tier):
     if tier != "quick":
         # beyond the exhaustive bounds: TLC -simulate. A simulated behaviour shows one resolution of the ties only, so
         # of those scenarios only the ones without any same-instant coincidence (deterministic) are compared.
-        sim = mc.export_runs(ck, [(SIM[0][0], SIM[0][1], (150000, 40, ck.seed + 11))], par=1, named=True, timeout=2400)
+        sim = mc.export_runs(ck, [(SIM[0][0], SIM[0][1], (60000, 40, ck.seed + 11))], par=1, named=True, timeout=2400)
         det = mc.deterministic_only(sim)
         ck.note("simulated_scenarios", len(sim))
         ck.note("simulated_scenarios_tie_free_compared", len(det))
